@@ -1311,6 +1311,8 @@ def st_in_loop_case(draw: st.DrawFn, tier: str) -> dict:
 
 
 
+from . import c18_load  # noqa: E402
+
 CHECK = Check(
     id="C18",
     level="exploration",
@@ -1320,7 +1322,8 @@ CHECK = Check(
         "listener close durations in ticks (the listener factory optionally cancel-shielded, as the real address resolution is), x TCP|UDP, run on the virtual-time loop against the unmodified async servers over in-memory "
         "listeners (layer async); the same kind of history with 2-3 real threads, loopback sockets and millisecond sleeps against the "
         "standalone servers (layer standalone, schedule randomised not owned); layer in-loop: server_close() of the standalone object called "
-        "from a callback in the server's own event-loop thread (must return or raise, never deadlock); non-trivial = at least two lifecycle operations overlap "
+        "from a callback in the server's own event-loop thread (must return or raise, never deadlock); layer stop-under-load: shutdown / cancelled serve_forever / "
+        "cancelled handler scope against one client that keeps the receive buffers filled (must take effect within the data already received); non-trivial = at least two lifecycle operations overlap "
         "in time, or a serve_forever starts after a shutdown returned; distinct = sha1 of the canonical case JSON"
     ),
     layers=[
@@ -1329,6 +1332,7 @@ CHECK = Check(
         Layer("restart-race", st_restart_case, run_restart_case, {"quick": 40, "thorough": 80}, case_timeout_s=400.0, shards=8),
         Layer("real-listener", st_real_listener_case, run_real_listener_case, {"quick": 600, "thorough": 4000}),
         Layer("in-loop", st_in_loop_case, run_in_loop_case, {"quick": 6, "thorough": 12}, shards=1, case_timeout_s=60.0),
+        c18_load.LAYER,
     ],
     assumptions=[
         "async layer: listeners are in-memory objects handed out by a backend subclass; everything above them (server, task groups, cancel scopes, locks) is the unmodified library on the real asyncio backend, on a virtual clock",
